@@ -18,6 +18,7 @@ import pyerrors as pe
 
 from harness import gen, tlc
 from harness.jsonsafe import rat, ratx
+from harness.frames import snap, frame_event
 from harness.pe_project import project_obs
 
 RULE = ('cases = covariance requests (list class x size 2..8 x analysis parameters x permutation), Cholesky inverses, smoothing '
@@ -100,6 +101,7 @@ def cov_cases(rng, n, ctx):
         try:
             if any(o.dvalue == 0 for o in objs):
                 continue
+            before = snap(objs)
             with np.errstate(all='ignore'):
                 C = pe.covariance(objs)
                 K = pe.covariance(objs, correlation=True)
@@ -111,6 +113,8 @@ def cov_cases(rng, n, ctx):
             cases.append({'id': 'cov-%04d-%s' % (i, cls), 'ev': 'raised', 't': type(e).__name__})
             continue
         cid = 'cov-%04d-%s-n%d' % (i, cls, len(objs))
+        if i % 2 == 0:
+            cases.append(frame_event(cid + '-frame', 'covariance leaves the list and the observables it was given as they were', before, objs))
         cases.append({'id': cid, 'ev': 'cov', 'objs': [project_obs(o) for o in objs], 'dvalues': [ratx(float(o.dvalue)) for o in objs],
                       'cov': mat(C), 'corr': mat(K), 'perm': [p + 1 for p in perm], 'cov_perm': mat(Cp), 'corr_perm': mat(Kp)})
         ctx.nontrivial.add((cls, len(objs), tuple(sorted(kw.items()))))
@@ -163,11 +167,14 @@ def band_cases(rng, n, ctx):
                 return a[0] * anp.exp(-a[1] * x)
         try:
             with np.errstate(all='ignore'):
+                before = snap(beta)
                 err = pe.fits.error_band(xs, func, beta)
+                fev = frame_event('band-%04d-frame' % i, 'error_band leaves the parameter observables as they were', before, beta)
                 C = pe.covariance(beta)
         except Exception as e:  # noqa: BLE001
             cases.append({'id': 'band-%04d' % i, 'ev': 'raised', 't': type(e).__name__})
             continue
+        cases.append(fev)
         cases.append({'id': 'band-%04d-%s%d-%s' % (i, fam, npar, xform), 'ev': 'band', 'family': fam, 'beta': [rat(float(b.value)) for b in beta],
                       'xs': [rat(float(x)) for x in xs], 'cov': mat(C), 'err': [ratx(float(e)) for e in err]})
         ctx.nontrivial.add(('band', fam, npar))
@@ -214,8 +221,6 @@ def sortcorr_cases(ctx, cfg):
                             c2['res'] = [[rat(0)]]
                         c2['corr'] = mat(corr2)
                         cases.append(c2)
-                        cases.append({'id': c0['id'] + '-frame', 'ev': 'frame', 'what': 'sort_corr leaves the key list and the matrix as they were',
-                                      'before': list(c0['kl']) + [x for row in mat(7.0 * corr + 3.0) for x in row], 'after': list(kl) + [x for row in mat(corr2) for x in row]})
         ctx.extra['tlc_enumerated_sortcorr'] = len(cases)
         return cases
     finally:
